@@ -49,6 +49,9 @@ func (p c10) Run(runseed uint64, tier string, acc *Acc) []*core.Violation {
 		o.MaxOps = 28
 		o.LargePct = 1
 	}
+	if tier != "thorough" {
+		o.ManyPct = 0
+	}
 	f, ok := genFile(r, o)
 	acc.Runs++
 	if !ok {
@@ -73,9 +76,12 @@ func (p c10) Run(runseed uint64, tier string, acc *Acc) []*core.Violation {
 	if f.W.Large {
 		acc.Inc("class/large")
 	}
+	if f.W.Many {
+		acc.Inc("class/many-row-groups")
+	}
 	for k := 1; k <= m; k++ {
-		if f.W.Large && r.Intn(m) >= 400 {
-			continue // large class: a seeded sample of about 400 call positions
+		if (f.W.Large || f.W.Many) && r.Intn(m) >= 400 {
+			continue // large and many-row-group classes: a seeded sample of about 400 call positions
 		}
 		faults := []core.SrcFault{{K: k, Kind: "err0"}}
 		if tier == "thorough" || r.Chance(1, 8) {
